@@ -1,4 +1,5 @@
 import LyModel.Val.Model
+import LyModel.Val.DrvDt
 /-! driver ops of component `val` (same request lines as `harness/api_types.c`) -/
 namespace LyModel.Val.Drv
 open LyModel LyModel.Val
@@ -50,7 +51,7 @@ def parseTy (d : String) : Option Ty :=
 
 def sgn (i : Int) : String := if i < 0 then "-1" else if i > 0 then "1" else "0"
 
-def handle (op : String) (args : List String) : String :=
+def handleBase (op : String) (args : List String) : String :=
   match op, args with
   | "store", [d, h, x] =>
     match parseTy d, h.toNat?, Hex.dec x with
@@ -96,5 +97,13 @@ def handle (op : String) (args : List String) : String :=
       | .error e => "err " ++ e.name
     | _, _ => "err BadArg"
   | _, _ => "err BadOp"
+
+/-- dispatch on the type descriptor (first argument): derived types with a model of their own, then the built-in types -/
+def handle (op : String) (args : List String) : String :=
+  match args with
+  | d :: _ =>
+    if d == "t:ietf-yang-types:date-and-time" then DrvDt.handle op args
+    else handleBase op args
+  | [] => handleBase op args
 
 end LyModel.Val.Drv
